@@ -80,6 +80,8 @@ pub struct Model<'p> {
     pub verified_without_exec: u64,
     pub c03_judged: u64,
     pub check_c03: bool,
+    /// (external-input node, refresh number) pairs already seen
+    pub refreshed: HashMap<(u32, u64), ()>,
     /// see `RunCfg::no_values`
     pub no_values: bool,
     /// nodes at or below a member of an unordered dependency group
@@ -165,6 +167,7 @@ impl<'p> Model<'p> {
             verified_without_exec: 0,
             c03_judged: 0,
             check_c03: true,
+            refreshed: HashMap::new(),
             no_values: false,
             unord_below: unord_below(prog),
         }
@@ -639,6 +642,16 @@ impl<'p> Model<'p> {
                 let n = inv.node;
                 let value = inv.result.clone().unwrap();
                 let kind = self.prog.kind(n);
+                if kind == Kind::Ex && inv.during_refresh && self.check_c03 {
+                    // one refresh runs an external-input executor once
+                    if self.refreshed.insert((n, inv.refresh_id), ()).is_some() {
+                        return Err(Failure {
+                            class: "ex_unjustified".into(),
+                            msg: format!("epoch {}: external-input node {n} was executed twice by one refresh", self.epoch),
+                            known: None,
+                        });
+                    }
+                }
                 if kind == Kind::Ex {
                     self.captured.insert(n, value.clone());
                     // a capture pins the value; memo entries computed from
